@@ -99,6 +99,8 @@ def check(ctx):
         b[0] = rnd.choice([0x80, 0x50, 0x10, 0x30, 0x40, 0x00, 0x20, 0xc0, 0xa0, 0xb0, 0xd0, 0x08, 0x88, 0xb4, rnd.getrandbits(8)])
         misc.append(frames.mp_line(bytes(b), rnd.choice([0, 0, 1, 2]), rnd))
     fw.run_suite(ctx, exe, "S-mp/misc", misc, "management parse")
+    import frames as _fr
+    fw.run_suite(ctx, exe, "S-mp/size-ladder", [l for l in _fr.size_ladder(rnd, ctx.tier) if l.startswith("mp ")], "management parse of long frames")
     ci = fw.corpus_inputs(ctx, random.Random(ctx.seed + 77))
     fw.run_suite(ctx, exe, "S-mp/corpus", ["mp %d %s" % (rt, b.hex() or "-") for rt, b in ci], "management parse (coverage-guided corpus + mutants)")
     fw.conclude(ctx, broken)
